@@ -56,13 +56,10 @@ def _lemma_worker(args):
         return [('error', '%s.%s: %s: %s' % (mod, name, type(e).__name__, e), traceback.format_exc()[-1200:])]
     for ob in obls:
         if ob.kind == 'cover':
-            s = z3.Solver()
-            s.set('timeout', timeout_ms)
-            s.add(ob.hyps)
+            from pyvc.verify import cover
             t0 = time.time()
-            r = s.check()
-            out.append(ObResult(ob.name, 'cover', 'proved' if r == z3.sat else ('unknown' if r == z3.unknown else 'refuted'),
-                                time.time() - t0))
+            status, note = cover(ob.hyps, timeout_ms)
+            out.append(ObResult(ob.name, 'cover', status, time.time() - t0, reason=note))
             continue
         r, dt, model, solver = solve(ob.hyps, ob.goal, timeout_ms)
         if r == z3.unsat:
